@@ -417,3 +417,121 @@ func positiveAmountRule(p *Prog, r *Report, rule string, mods map[string]bool, f
 		}
 	}
 }
+
+// selfDecrementRule: what is left of a funded programme decreases from itself:
+// rec.AvailableRewards = rec.AvailableRewards - paid. A remainder recomputed from another
+// field (the original funding) forgets what earlier epochs paid and later epochs overpay.
+func selfDecrementRule(p *Prog, r *Report, rule string, mods map[string]bool, field string, floor int) {
+	r.Rule(rule, "the remaining balance of a programme ("+field+") is reduced from its own previous value", floor)
+	for _, fn := range p.Funcs {
+		if !mods[moduleOf(fn)] || p.isAuxFn(fn) || len(fn.Blocks) == 0 {
+			continue
+		}
+		n := 0
+		for _, b := range fn.Blocks {
+			for _, in := range b.Instrs {
+				st, ok := in.(*ssa.Store)
+				if !ok {
+					continue
+				}
+				base, path := addrBase(st.Addr)
+				hit := false
+				for _, seg := range path {
+					if seg == field {
+						hit = true
+					}
+				}
+				if !hit {
+					continue
+				}
+				op, recv, _, isAS := addSubOf(st.Val)
+				if !isAS || op != "Sub" {
+					continue
+				}
+				tn := namedTypeName(derefAll(base.Type()))
+				n++
+				r.Instance(rule)
+				r.FuncsSeen[fname(fn)] = true
+				construct := fmt.Sprintf("%s %s.%s reduction #%d", fname(fn), tn, field, n)
+				if p.fromRecordFieldsLoose(recv, map[string]bool{tn: true}, map[string]bool{field: true}) {
+					r.OK(rule, construct, "reduced from its own previous value", p.instrPos(st))
+				} else {
+					r.Fail(rule, construct, "the remaining balance is recomputed from another value ("+strings.Join(keysOf(p, recv), ", ")+") instead of its own previous value: what earlier epochs paid is forgotten and the programme pays out more than it was funded with", p.instrPos(st), nil)
+				}
+			}
+		}
+	}
+}
+
+// reserveSideRule: the liquidity module's convention is x = quote reserve, y = base reserve.
+// At every call into the amm package whose parameters are named (rx, ry) or (x, y), an
+// argument read from a Quote... source goes to the x parameter and one read from a Base...
+// source to the y parameter.
+func reserveSideRule(p *Prog, r *Report, rule string, floor int) {
+	r.Rule(rule, "calls into the amm package pass quote-side values as x and base-side values as y", floor)
+	sideOfParam := func(name string) string {
+		switch name {
+		case "rx", "x", "ax":
+			return "Quote"
+		case "ry", "y", "ay":
+			return "Base"
+		}
+		return ""
+	}
+	for _, fn := range p.Funcs {
+		if moduleOf(fn) != "liquidity" || p.isAuxFn(fn) || len(fn.Blocks) == 0 || !strings.HasSuffix(fnPkgPath(fn), "/keeper") {
+			continue
+		}
+		for _, c := range calls(fn) {
+			sc := c.Common().StaticCallee()
+			if sc == nil || sc.Pkg == nil || !strings.HasSuffix(sc.Pkg.Pkg.Path(), "x/liquidity/amm") {
+				continue
+			}
+			args := c.Common().Args
+			for i, pr := range sc.Params {
+				want := sideOfParam(pr.Name())
+				if want == "" || i >= len(args) {
+					continue
+				}
+				got := ""
+				for _, o := range p.DeepOrigins(args[i]) {
+					for _, seg := range o.Path {
+						if strings.Contains(seg, "Quote") {
+							got += "Q"
+						}
+						if strings.Contains(seg, "Base") {
+							got += "B"
+						}
+					}
+					if o.Kind == "call" {
+						for _, a := range o.Call.Common().Args {
+							if _, f, _, ok := fieldRead(a); ok {
+								if strings.Contains(f, "Quote") {
+									got += "Q"
+								}
+								if strings.Contains(f, "Base") {
+									got += "B"
+								}
+							}
+						}
+					}
+				}
+				if got == "" || (strings.Contains(got, "Q") && strings.Contains(got, "B")) {
+					continue // no side in the source names, or both: not decidable
+				}
+				r.Instance(rule)
+				r.FuncsSeen[fname(fn)] = true
+				construct := fmt.Sprintf("%s -> %s arg %s", fname(fn), sc.Name(), pr.Name())
+				side := "Quote"
+				if strings.Contains(got, "B") {
+					side = "Base"
+				}
+				if side == want {
+					r.OK(rule, construct, side+"-side value passed as "+pr.Name(), p.instrPos(c))
+				} else {
+					r.Fail(rule, construct, fmt.Sprintf("a %s-side value is passed as %s (the %s side): the two reserves are swapped, a pool with unequal reserves is valued / redeemed in the wrong proportion", side, pr.Name(), want), p.instrPos(c), nil)
+				}
+			}
+		}
+	}
+}
